@@ -68,6 +68,26 @@ fn rbf_of(ts: &TaskSet, i: usize) -> DynRbf {
     RBF::new(ts.tasks[i].arr.build(), Scalar::new(s(ts.tasks[i].wcet)))
 }
 
+/// The demand of task `j` as handed to an analysis that takes trait objects: plain RBF, or (for
+/// the "group" representations 3 and 4) an aggregate of the task and a member that never
+/// releases anything — a valid, if unusual, upper bound of the same task's demand.
+fn other_dyn(ts: &TaskSet, j: usize, repr: u8) -> Box<dyn RequestBound> {
+    if repr >= 3 {
+        let never: DynRbf = RBF::new(
+            Box::new(response_time_analysis::arrival::Never {}),
+            Scalar::new(s(ts.tasks[j].wcet)),
+        );
+        let members: Vec<Box<dyn RequestBound>> = if repr == 3 {
+            vec![Box::new(rbf_of(ts, j)), Box::new(never)]
+        } else {
+            vec![Box::new(never), Box::new(rbf_of(ts, j))]
+        };
+        Box::new(demand::Aggregate::new(members))
+    } else {
+        Box::new(rbf_of(ts, j))
+    }
+}
+
 /// Blocking bound as the property states it: longest lower-priority
 /// non-preemptive segment minus one.
 pub fn fp_blocking(ts: &TaskSet, i: usize, pre: Preempt) -> u64 {
@@ -183,6 +203,11 @@ pub fn analyse_raw(ts: &TaskSet, variant: Variant, i: usize, repr: u8) -> Search
                     // an aggregate of aggregates (the second one possibly empty)
                     let mut owned: Vec<DynRbf> = hep.iter().map(|j| rbf_of(ts, *j)).collect();
                     let tail = owned.split_off(owned.len() / 2);
+                    let mut tail = tail;
+                    tail.push(RBF::new(
+                        Box::new(response_time_analysis::arrival::Never {}),
+                        Scalar::new(s(1)),
+                    ));
                     let others = vec![demand::Aggregate::new(vec![
                         demand::Aggregate::new(owned),
                         demand::Aggregate::new(tail),
@@ -204,9 +229,10 @@ pub fn analyse_raw(ts: &TaskSet, variant: Variant, i: usize, repr: u8) -> Search
             match variant {
                 Variant::EdfP => {
                     let owned: Vec<DynRbf> = others_idx.iter().map(|j| rbf_of(ts, *j)).collect();
-                    if repr == 1 {
-                        let dynr: Vec<&dyn RequestBound> =
-                            owned.iter().map(|r| r as &dyn RequestBound).collect();
+                    if repr == 1 || repr >= 3 {
+                        let boxed: Vec<Box<dyn RequestBound>> =
+                            others_idx.iter().map(|j| other_dyn(ts, *j, repr)).collect();
+                        let dynr: Vec<&dyn RequestBound> = boxed.iter().map(|r| &**r).collect();
                         let others: Vec<edf::fully_preemptive::Task<dyn RequestBound>> = others_idx
                             .iter()
                             .zip(dynr.iter())
@@ -257,12 +283,13 @@ pub fn analyse_raw(ts: &TaskSet, variant: Variant, i: usize, repr: u8) -> Search
                     edf::fully_nonpreemptive::dedicated_uniproc_rta(&tua, &others[..], limit)
                 }
                 Variant::EdfLp => {
-                    let owned: Vec<DynRbf> = others_idx.iter().map(|j| rbf_of(ts, *j)).collect();
-                    let others: Vec<edf::limited_preemptive::InterferingTask<DynRbf>> = others_idx
+                    let owned: Vec<Box<dyn RequestBound>> =
+                        others_idx.iter().map(|j| other_dyn(ts, *j, repr)).collect();
+                    let others: Vec<edf::limited_preemptive::InterferingTask<dyn RequestBound>> = others_idx
                         .iter()
                         .zip(owned.iter())
                         .map(|(j, r)| edf::limited_preemptive::InterferingTask {
-                            rbf: r,
+                            rbf: &**r,
                             deadline: d(ts.tasks[*j].deadline),
                             max_np_segment: s(ts.tasks[*j].max_np_under(pre)),
                         })
@@ -276,13 +303,14 @@ pub fn analyse_raw(ts: &TaskSet, variant: Variant, i: usize, repr: u8) -> Search
                     edf::limited_preemptive::dedicated_uniproc_rta(&tua, &others[..], limit)
                 }
                 Variant::EdfFl => {
-                    let owned: Vec<DynRbf> = others_idx.iter().map(|j| rbf_of(ts, *j)).collect();
-                    let others: Vec<edf::floating_nonpreemptive::InterferingTask<DynRbf>> =
+                    let owned: Vec<Box<dyn RequestBound>> =
+                        others_idx.iter().map(|j| other_dyn(ts, *j, repr)).collect();
+                    let others: Vec<edf::floating_nonpreemptive::InterferingTask<dyn RequestBound>> =
                         others_idx
                             .iter()
                             .zip(owned.iter())
                             .map(|(j, r)| edf::floating_nonpreemptive::InterferingTask {
-                                rbf: r,
+                                rbf: &**r,
                                 deadline: d(ts.tasks[*j].deadline),
                                 max_np_segment: s(ts.tasks[*j].max_np_under(pre)),
                             })
@@ -315,7 +343,13 @@ pub fn analyse_raw(ts: &TaskSet, variant: Variant, i: usize, repr: u8) -> Search
                 3 | 4 => {
                     // nested: an aggregate of (a slice-backed box, an aggregate)
                     let mut owned = owned;
-                    let tail = owned.split_off(owned.len() / 2);
+                    let mut tail = owned.split_off(owned.len() / 2);
+                    if repr == 4 {
+                        tail.push(RBF::new(
+                            Box::new(response_time_analysis::arrival::Never {}),
+                            Scalar::new(s(1)),
+                        ));
+                    }
                     let parts: Vec<Box<dyn RequestBound>> = vec![
                         Box::new(demand::Aggregate::new(owned)),
                         Box::new(demand::Aggregate::new(tail)),
